@@ -36,6 +36,9 @@ func mkErr(tag int) error {
 	if tag == eCanceled {
 		return context.Canceled
 	}
+	if tag == eCut {
+		return io.ErrUnexpectedEOF
+	}
 	return &tagErr{tag}
 }
 
@@ -111,6 +114,9 @@ func classify(err error, ref map[string]bool) int {
 	}
 	if errors.Is(err, context.Canceled) {
 		return eCanceled
+	}
+	if errors.Is(err, io.ErrUnexpectedEOF) {
+		return eCut
 	}
 	var te *tagErr
 	if errors.As(err, &te) {
@@ -193,7 +199,7 @@ func (s *execState) ev(kind string, i int) {
 
 const goodChallenge = `Digest realm="c18", nonce="dcd98b7102dd2f0e8b11d0f600bfb0c093", qop="auth", algorithm=MD5`
 
-func buildHTTPResponse(t toutSpec, hr *http.Request, viaTransformer bool) *http.Response {
+func buildHTTPResponse(t toutSpec, hr *http.Request, p *progSpec) *http.Response {
 	h := http.Header{}
 	if t.B.CT != "" {
 		h.Set("Content-Type", t.B.CT)
@@ -208,9 +214,12 @@ func buildHTTPResponse(t toutSpec, hr *http.Request, viaTransformer bool) *http.
 	}
 	var body io.Reader = bytes.NewReader([]byte(t.B.Body))
 	cl := int64(len(t.B.Body))
-	if t.B.ReadErr != 0 && !viaTransformer {
-		body = &failReader{r: body, err: mkErr(t.B.ReadErr)}
+	if e := p.readerErr(t.B); e != 0 {
+		body = &failReader{r: body, err: mkErr(e)}
 		cl = -1
+		if t.B.Cut == "length" {
+			cl = int64(len(t.B.Body)) + 50
+		}
 	}
 	return &http.Response{StatusCode: t.Status, Status: fmt.Sprintf("%d %s", t.Status, http.StatusText(t.Status)),
 		Proto: "HTTP/1.1", ProtoMajor: 1, ProtoMinor: 1, Header: h, Body: io.NopCloser(body), ContentLength: cl, Request: hr}
@@ -267,7 +276,7 @@ func (s *execState) transport(hr *http.Request) (*http.Response, error) {
 	if t.Fail != 0 {
 		return nil, mkErr(t.Fail)
 	}
-	return buildHTTPResponse(t, hr, s.p.Transformer), nil
+	return buildHTTPResponse(t, hr, s.p), nil
 }
 
 func (s *execState) mwFunc(level string, i int) req.ResponseMiddleware {
@@ -396,8 +405,8 @@ func execute(p *progSpec, origin *realOrigin) (o obsT, res *okT, er *errT) {
 	if p.Transformer {
 		fails := map[string]int{}
 		for _, t := range p.allTouts() {
-			if t.B.ReadErr != 0 {
-				fails[t.B.Body] = t.B.ReadErr
+			if e := p.tfErr(t.B); e != 0 {
+				fails[t.B.Body] = e
 			}
 		}
 		c.SetResponseBodyTransformer(func(raw []byte, rq *req.Request, resp *req.Response) ([]byte, error) {
